@@ -6,6 +6,7 @@
 
     new_block g | uedge g h t | cedge g h t <FIL expr> | entry g i | exit g i | merge g
     append g g' | insert g g' | op g b <FIL op> | bappend g b g' b' | rmins g b idx | temp g bits
+    blockify g g'*      (g := BlockTranslationResult::new([g'*], ..).blockify()?; g unchanged on Err)
 
   Answer per operation (joined by ` ; `):   <result>|<properties>|<dump of g after the call>
     result      ok | ok:<index> | ok:<entry>,<exit> | ok:<name>:<bits> | err:other | panic
@@ -70,6 +71,8 @@ def parseOp (op : String) : Option EditOp :=
   | some [.atom "bappend", .atom g, b, .atom h, j] => do pure (.bappend (← graphIx g) (← b.nat?) (← graphIx h) (← j.nat?))
   | some [.atom "rmins", .atom g, b, i] => do pure (.rmins (← graphIx g) (← b.nat?) (← i.nat?))
   | some [.atom "temp", .atom g, n] => do pure (.temp (← graphIx g) (← n.nat?))
+  | some (.atom "blockify" :: .atom g :: hs) => do
+      pure (.blockify (← graphIx g) (← hs.mapM (fun h => h.atom?.bind graphIx)))
   | _ => none
 
 def outcomeStr : Outcome → String
@@ -92,6 +95,13 @@ def specOf (s : Graphs) : EditOp → String × String
           | some a, some b => some (concatK K a b)
           | _, _ => none
       ("ok", " ee=" ++ digest ee)
+  | .blockify _ hs =>
+    let ds := hs.map s
+    if ds.all (fun d => d.entry.isSome && d.exit.isSome) then
+      -- the appended graph runs the instruction graphs in sequence (append's specification); the final
+      -- merge must not change what can be executed from the entry
+      ("ok", " lang=" ++ digest (langK (blockifyAppends blockifyInit ds).cfg K))
+    else ("err:other", "")
   | _ => ("*", "")
 
 /-- the extra properties printed after the call, from the graph after it -/
@@ -99,6 +109,7 @@ def extraOf (o : EditOp) (res : Res Outcome) (c : Cfg) : String :=
   match o, res with
   | .merge _, _ => " lang=" ++ digest (langK c K)
   | .append .., .ok _ => " ee=" ++ digest (langEEK c K)
+  | .blockify .., .ok _ => " lang=" ++ digest (langK c K)
   | _, _ => ""
 
 /-- new graphs, model answer, spec answer -/
